@@ -39,7 +39,8 @@ type Conn struct {
 	outFailAt int64 // >=0: writes fail once outTotal would exceed this many bytes
 	outCap    int   // >0: send buffer size - Write blocks while this many bytes wait to be taken by the client
 
-	closed      bool // server called Close
+	closed      bool  // server called Close
+	closeErr    error // Close still closes, but reports this error (e.g. ECONNRESET from close(2))
 	closedAt    time.Time
 	closeUnread int
 	nClose      int
@@ -234,7 +235,7 @@ func (c *Conn) Close() error {
 	c.closedAt = time.Now()
 	c.closeUnread = len(c.in)
 	c.signal()
-	return nil
+	return c.closeErr
 }
 
 func (c *Conn) LocalAddr() net.Addr  { return c.local }
